@@ -140,6 +140,16 @@ CLAIMED = {
              'identity-disjointness; seeded random inputs are validated row by row by TLC.',
         design='4/C15',
         technique='TLA+ spec + TLC enumeration with spec mutants, replay into glom, TLC validation of recorded executions'),
+    'C16': dict(
+        text='GlomGroup is a machine (NewEvaluation / Feed(item) / Finish on a stack of evaluations of one spec object) over a transcription '
+             'of the ACC_TREE mechanism on an object heap, checked by TLC after every action against the reference-grouping law '
+             '(first-occurrence key order, encounter-order values, SKIP leaves no trace, Python references at the leaves) and against '
+             'disjointness / freshness of evaluations, with spec mutants including the historic mechanisms; every reachable state is '
+             'replayed into glom (every prefix = one call on the re-used spec, nested evaluations through generator targets, two '
+             'spellings, three target kinds); recorded random histories are stepped through the same machine by TLC.  Two genuine '
+             'defects remain recorded as narrow known findings.',
+        design='4/C16',
+        technique='TLA+ state machine + TLC, state replay into glom, TLC trace validation of recorded histories'),
 }
 
 PENDING_REASON = 'check not built yet (planned: see DESIGN.md section 4); not claimed until both binding directions exist'
